@@ -789,7 +789,7 @@ func probeTokens(rt *rapid.T, sc *scenario, sw *swarm.Swarm, ps interface {
 
 func TestDialSchedules(t *testing.T) {
 	name := t.Name()
-	hx.Check(t, 2500, 120000, 0, func(rt *rapid.T) {
+	hx.Check(t, 20000, 400000, 0, func(rt *rapid.T) {
 		sc := drawScenario(rt)
 		runScenario(t, rt, name, sc)
 	})
